@@ -20,7 +20,7 @@ type LiveEvent struct {
 // relays every message a node handles from its own queue to all other nodes with seeded random delay,
 // duplication and reordering (standing in for the reactor's gossip), and records every handled input with
 // the round state after it. It returns when every honest node has committed `heights` blocks or after `limit`.
-func RunLive(dir string, powers []int64, byz []int, maxRound int64, heights int64, seed int64, limit time.Duration, scale int) (*Sim, []LiveEvent, error) {
+func RunLive(dir string, powers []int64, byz []int, maxRound int64, heights int64, seed int64, limit time.Duration, scale int, byzActive bool) (*Sim, []LiveEvent, error) {
 	pbft.VerifTraceMaxRound = maxRound
 	var (
 		mtx    sync.Mutex
@@ -49,6 +49,7 @@ func RunLive(dir string, powers []int64, byz []int, maxRound int64, heights int6
 	if err != nil {
 		return nil, nil, err
 	}
+	s.ByzActive = byzActive
 	mtx.Lock()
 	for _, i := range s.HonestIdx() {
 		byCS[s.Nodes[i].CS] = i
@@ -113,6 +114,62 @@ func RunLive(dir string, powers []int64, byz []int, maxRound int64, heights int6
 			close(stop)
 			return s, nil, err
 		}
+	}
+	// the adversary: every Byzantine validator equivocates - conflicting prevotes/precommits for blocks it has seen, for
+	// nil and for its own blocks, different ones to different nodes, and two different proposals when it is the proposer
+	if len(byz) > 0 && s.ByzActive {
+		go func() {
+			brng := rand.New(rand.NewSource(seed ^ 0x5eed))
+			var bmtx sync.Mutex
+			for {
+				select {
+				case <-stop:
+					return
+				case <-time.After(time.Duration(3+brng.Intn(10)) * time.Millisecond):
+				}
+				honest := s.HonestIdx()
+				to := honest[brng.Intn(len(honest))]
+				n := s.Nodes[to]
+				rs := n.CS.GetRoundState()
+				by := byz[brng.Intn(len(byz))]
+				bmtx.Lock()
+				// (the value registry is only touched by this goroutine while the run lasts)
+				var known [][]interface{}
+				for _, v := range s.bySym {
+					if jnum(v.Sym[1]) == rs.Height {
+						known = append(known, v.Sym)
+					}
+				}
+				var m Msg
+				switch brng.Intn(5) {
+				case 0, 1, 2:
+					ty := "pv"
+					if brng.Intn(2) == 0 {
+						ty = "pc"
+					}
+					v := NilSym
+					if len(known) > 0 && brng.Intn(3) > 0 {
+						v = known[brng.Intn(len(known))]
+					}
+					r := rs.Round
+					if brng.Intn(4) == 0 {
+						r++
+					}
+					m = Msg{T: "V", H: rs.Height, R: r, Ty: ty, By: by, V: v}
+				case 3:
+					m = Msg{T: "P", H: rs.Height, R: rs.Round, V: []interface{}{"X", rs.Height, int64(1 + brng.Intn(2))}, Pol: -1, By: by}
+				default:
+					m = Msg{T: "B", H: rs.Height, R: rs.Round, V: []interface{}{"X", rs.Height, int64(1 + brng.Intn(2))}}
+				}
+				real, err := s.Concrete(m, n)
+				bmtx.Unlock()
+				if err != nil {
+					continue
+				}
+				wg.Add(1)
+				go deliver(to, by, real, 0)
+			}
+		}()
 	}
 	deadline := time.Now().Add(limit)
 	var rerr error
@@ -204,12 +261,24 @@ func (s *Sim) LiveTrace(events []LiveEvent, heights int64) []map[string]interfac
 			} else {
 				if le.Ev.PeerKey == "" {
 					rec["a"] = "Internal"
+				} else if s.Byz[am.By] || (am.T == "B" && len(am.V) > 0 && (am.V[0] == "X" || am.V[0] == "I")) {
+					rec["a"] = "Byz"
 				} else {
 					rec["a"] = "Peer"
 				}
 				if pm, ok := le.Ev.Msg.(*pbft.ProposalMessage); ok {
 					if by, ok := propBy[pkey(pm.Proposal)]; ok {
 						am.By = by
+					} else {
+						// not an honest node's own proposal: find the validator whose key signed it
+						for k := range s.Privs {
+							if s.Privs[k].PubKey().VerifyBytes(types.SignBytes(ChainID, pm.Proposal), pm.Proposal.Signature) {
+								am.By = k + 1
+							}
+						}
+					}
+					if s.Byz[am.By] && le.Ev.PeerKey != "" {
+						rec["a"] = "Byz"
 					}
 				}
 				rec["m"] = am.AsSpec()
